@@ -141,7 +141,13 @@ def cleanup_nodes():
 
 
 OMIT_WINDOW = 1e6       # seconds: every announcement of an unchanged value (without a pending error) is omitted
-OMIT_MODELLED = {'floatenum'}   # families whose model covers the omission of unchanged updates (the others: judged only)
+OMIT_MODELLED = {'floatenum', 'limits'}   # families whose model covers the omission of unchanged updates (the others: judged only)
+
+
+def pending(pobj):
+    """the next announcement of this parameter cannot be omitted as unchanged: an error is pending, or it was never
+    announced (timestamp 0: no window is open)"""
+    return pobj.readerror is not None or not pobj.timestamp
 
 
 def new_node(cfg, omit=False):
@@ -455,7 +461,7 @@ def impl_floatenum(case):
                 evs.append(['idx', int(val)])
         # what a client reads: the reply of a `read` request is the cache entry
         return {'idx': int(mod.parameters['x_idx'].value), 'value': float(pobj.value),
-                'idxErr': mod.parameters['x_idx'].readerror is not None, 'valErr': pobj.readerror is not None, 'evs': evs, 'ok': ok,
+                'idxErr': pending(mod.parameters['x_idx']), 'valErr': pending(pobj), 'evs': evs, 'ok': ok,
                 'exc': exc, 'write': write, 'assign': assign, 'selected': cur.get('selected')}
 
     trace = [snapshot(True)]
@@ -889,7 +895,9 @@ def impl_limits(case):
                 evs.append(['max', sc(val)])
             elif par == ex(p + '_limits'):
                 evs.append(['limits', sc(val[0]), sc(val[1])])
-        return dict(rec, ok=ok, exc=exc, before=before, after=limits(), value=sc(getattr(mod, p)), evs=evs)
+        errs = [pending(mod.parameters[n]) if n in mod.parameters else False
+                for n in (p, p + '_min', p + '_max', p + '_limits')]
+        return dict(rec, ok=ok, exc=exc, before=before, after=limits(), value=sc(getattr(mod, p)), evs=evs, errs=errs)
 
     norec = {'write': None, 'echo': False, 'setLimits': None, 'stopAt': None}
     trace = [snapshot(True, limits(), norec)]
@@ -944,8 +952,9 @@ def wire_layers(case):
     return [layer[:4] for layer in case['layers']]
 
 
-def wire_limits(case):
+def wire_limits(case, trace):
     return {'p': 'C18', 'k': 'limits', 'lo': case['lo'], 'hi': case['hi'], 'layers': wire_layers(case), 'hasW': case['hasW'],
+            'omit': bool(case.get('omit')), 'errs0': trace[0]['errs'],
             'value0': case['value0'], 'ops': [op[:-1] for op in case['ops']]}
 
 
@@ -957,12 +966,14 @@ def judge_limits_req(case, trace):
 def limits_canon(case, t):
     """observation compared with the model: the model carries all three limit parameters, the code only those that exist"""
     return {'value': t['value'], 'min': t['after']['min'], 'max': t['after']['max'], 'limits': t['after']['limits'],
-            'evs': t['evs'], 'ok': t['ok'], 'exc': t['exc']}
+            'errs': t['errs'], 'evs': t['evs'], 'ok': t['ok'], 'exc': t['exc']}
 
 
 def model_limits_canon(case, s):
     return {'value': s['value'], 'min': s['min'] if case['has_min'] else None, 'max': s['max'] if case['has_max'] else None,
-            'limits': s['limits'] if case['has_limits'] else None, 'evs': s['evs'], 'ok': s['ok'], 'exc': s['exc']}
+            'limits': s['limits'] if case['has_limits'] else None,
+            'errs': [e and has for e, has in zip(s['errs'], (True, case['has_min'], case['has_max'], case['has_limits']))],
+            'evs': s['evs'], 'ok': s['ok'], 'exc': s['exc']}
 
 
 def gen_limits(rng, big):
@@ -1205,7 +1216,7 @@ def prepare(case):
     if kind == 'limits':
         case = limits_case(case)
         trace = impl_limits(case)
-        return trace, wire_limits(case), judge_limits_req(case, trace), [limits_canon(case, t) for t in trace]
+        return trace, wire_limits(case, trace), judge_limits_req(case, trace), [limits_canon(case, t) for t in trace]
     if kind == 'labels':
         impl = impl_labels(case)
         model, canon = labels_requests(case, impl)
